@@ -100,6 +100,9 @@ func goroutinesWith(sub string) int {
 
 // collect keeps every surfaced frame as the consumer got it and renders them only when the stream has gone quiet: a
 // frame the consumer still holds must not change when later datagrams arrive (the receivers reuse their buffers).
+// collectPause makes collect stop reading for this long after every third frame (a consumer that is momentarily busy).
+var collectPause time.Duration
+
 func collect(in <-chan knxnet.Service, want int, quiet time.Duration) (got []string, closed bool) {
 	var held []knxnet.Service
 	defer func() {
@@ -114,6 +117,9 @@ func collect(in <-chan knxnet.Service, want int, quiet time.Duration) (got []str
 				return nil, true
 			}
 			held = append(held, s)
+			if collectPause > 0 && len(held)%3 == 0 {
+				time.Sleep(collectPause)
+			}
 		case <-time.After(quiet):
 			return nil, false
 		}
@@ -222,7 +228,9 @@ func runUDPRecv(o *codec.Out, t *testing.T, frames [][]byte, tag string, closeMo
 	for _, f := range frames {
 		peer.WriteToUDP(f, caddr)
 		r.Sent = append(r.Sent, fr(f))
-		time.Sleep(120 * time.Microsecond)
+		if !strings.HasPrefix(tag, "udp-burst") { // (bursts: datagrams queue up in the kernel back to back)
+			time.Sleep(120 * time.Microsecond)
+		}
 	}
 	wg.Wait()
 	sock.Close()
@@ -343,6 +351,79 @@ func runTCPRecv(o *codec.Out, t *testing.T, frames [][]byte, cuts []int, tag str
 	if r.Got == nil {
 		r.Got = []string{}
 	}
+	o.Rec(r)
+}
+
+// runTCPStall: the peer does not read for `stall`, the client keeps sending until a Send blocks; then the peer reads
+// everything. Whatever Send reported, the byte stream must parse into whole frames that were sent, in order.
+func runTCPStall(o *codec.Out, t *testing.T, stall time.Duration) {
+	sock, peer, l := tcpPair(t)
+	defer l.Close()
+	defer peer.Close()
+	r := blank("send", "tcp", "stalled-peer")
+	raw := make([]byte, 30000)
+	stop := time.Now().Add(stall)
+	var sent [][]byte
+	var mu sync.Mutex
+	done := make(chan struct{})
+	go func() {
+		defer close(done)
+		for i := 0; time.Now().Before(stop) && i < 20000; i++ {
+			raw[0], raw[1], raw[2] = byte(i), byte(i>>8), byte(i>>16)
+			f := &knxnet.RoutingInd{Payload: &cemi.LRawReq{LRaw: append([]byte(nil), raw...)}}
+			b := knxnet.AllocAndPack(f)
+			mu.Lock()
+			sent = append(sent, b)
+			mu.Unlock()
+			if sock.Send(f) != nil {
+				// a failed Send may or may not have written (part of) its frame; the socket stays in use
+				continue
+			}
+		}
+	}()
+	time.Sleep(stall + 200*time.Millisecond)
+	// the peer resumes reading; the sender goroutine finishes (its pending Send completes or fails)
+	var stream []byte
+	buf := make([]byte, 1<<20)
+	for {
+		peer.SetReadDeadline(time.Now().Add(400 * time.Millisecond))
+		n, err := peer.Read(buf)
+		stream = append(stream, buf[:n]...)
+		if err != nil {
+			break
+		}
+	}
+	<-done
+	sock.Close()
+	// parse: every frame in the stream must be exactly one of the frames handed to Send, in order (frames whose Send
+	// failed may be missing entirely, never partially)
+	mu.Lock()
+	defer mu.Unlock()
+	pos, idx, ok := 0, 0, true
+	for pos < len(stream) {
+		if len(stream)-pos < 6 {
+			ok = false
+			break
+		}
+		tl := int(stream[pos+4])<<8 | int(stream[pos+5])
+		if tl < 6 || pos+tl > len(stream) {
+			// the stream may end inside the frame that was in flight when the peer stopped reading for good
+			ok = pos+tl > len(stream) && tl >= 6 && tl == len(sent[0])
+			break
+		}
+		fr := stream[pos : pos+tl]
+		for idx < len(sent) && string(sent[idx]) != string(fr) {
+			idx++
+		}
+		if idx == len(sent) {
+			ok = false
+			break
+		}
+		idx++
+		pos += tl
+	}
+	r.Contig = codec.B2i(ok)
+	r.Sent, r.Peer = []frameRec{}, []string{}
 	o.Rec(r)
 }
 
@@ -545,6 +626,26 @@ func TestC16(t *testing.T) {
 		runUDPRecv(o, t, frameSet(1+rng.Intn(50), rng, false, 500), "udp-wf", "local")
 	}
 	runUDPRecv(o, t, frameSet(30, rng, false, 1500), "udp-large", "local")
+	// a consumer that is momentarily busy while datagrams keep arriving (the receiver must hold them back in order)
+	collectPause = 1500 * time.Microsecond
+	for i := 0; i < map[bool]int{true: 3, false: 12}[q]; i++ {
+		runUDPRecv(o, t, frameSet(12+rng.Intn(18), rng, false, 300), "udp-slow-consumer", "local")
+	}
+	for i := 0; i < map[bool]int{true: 4, false: 16}[q]; i++ {
+		runUDPRecv(o, t, frameSet(10+rng.Intn(20), rng, false, 200), "udp-burst-slow-consumer", "local")
+	}
+	collectPause = 0
+	// stray datagrams (undecodable, empty-bodied, truncated) between the frames: they are dropped, the rest stays in order
+	for i := 0; i < map[bool]int{true: 3, false: 12}[q]; i++ {
+		var seq [][]byte
+		for j, f := range frameSet(15+rng.Intn(20), rng, false, 200) {
+			seq = append(seq, f)
+			if j%4 == 1 {
+				seq = append(seq, []byte{6, 0x10, 0x04, 0x20, 0, 9, 1, 2, 3}, f[:6])
+			}
+		}
+		runUDPRecv(o, t, seq, "udp-stray", "local")
+	}
 	// frame sizes around and beyond 1 KiB, up to the largest frame the library can encode in one datagram
 	var big [][]byte
 	for _, n := range []int{900, 1000, 1010, 1017, 1018, 1019, 1024, 1100, 1400, 4000, 60000} {
@@ -593,6 +694,8 @@ func TestC16(t *testing.T) {
 		runSend(o, t, "udp", s, 30)
 		runSend(o, t, "tcp", s, 30)
 	}
+	// a TCP peer that stops reading for a while: Sends block (or fail), but the stream stays a sequence of whole frames
+	runTCPStall(o, t, 3300*time.Millisecond)
 	// connect request endpoints
 	for _, tcp := range []bool{false, true} {
 		for _, sl := range []bool{false, true} {
